@@ -35,7 +35,7 @@ RULE = ("lludp hook: all pairs (quick) / triples (thorough) of 16 behaviours {re
         "original twice, send-then-raise, mutate, send a marked deep copy} over 2-3 addons x {viewer->sim, sim->viewer} x "
         "{reliable, unreliable}; other hook points: handle_proxied_packet, session / region subscribers (named and "
         "wildcard), RLV command hook (one and several commands), object hooks; every scenario is followed by a plain "
-        "message that must still get through all hooks; + every ownership-operation sequence of length <= 4 (quick) / 5 "
+        "message that must still get through all hooks; + every ownership-operation sequence of length <= 4 (quick) / 6 "
         "(thorough) on a message. distinct_nontrivial = distinct (hook point, behaviour tuple, direction, reliability) scenarios")
 ASSUMPTIONS = [
     "claims = truthy return, take(), explicit drop, the proxy's command channel; everything else must be forwarded exactly once",
@@ -774,7 +774,7 @@ def run(ctx):
         else:
             check_object_hook(ctx, o[1])
     # ownership sequences
-    max_len = ctx.pick(4, 5)
+    max_len = ctx.pick(4, 6)
     i = 0
     for n in range(1, max_len + 1):
         for ops in itertools.product(OPS, repeat=n):
